@@ -483,14 +483,17 @@ PROPS = {
                      "over simulated time with clock steps backwards and jumps; distinct = digest of recorded ids per hop + schedule hash",
                 assumptions=["'truncated to the limit' is accepted in bytes or in characters", "fresh = encoded from entropy handed out by SimRand to the same task while that request was in its middlewares, or produced by that node's custom ID function",
                              "adaptive sampling and percentages strictly between 0 and 100 are not constrained by the property and only exercised"]),
-    "C20": dict(engine="rt", pkg="./engines/rt", race=True, quick_runs=3000, thorough_runs=300000, quick_budget=150, thorough_budget=2400,
+    "C20": dict(engine="rtgen", pkg="./engines/rt", race=True, quick_runs=3000, thorough_runs=300000, quick_budget=240, thorough_budget=3000,
+                quick_designs=16, thorough_designs=40, quick_gen_runs=800, thorough_gen_runs=40000,
                 level="exploration",
                 rule="runtime half: one run = one of (a) 2-16 (thorough: up to 64) client tasks x 1-4 (thorough 1-10) requests (ok, catch-all, invalid, declared error, plain error, "
                      "unknown route, truncated body; Accept json/xml/gob/absent) through SimNet against ONE mounted server assembled from goa's runtime helpers the way generated servers "
                      "assemble them (shared decoder/encoder/ErrorEncoder closures, muxer, optional RequestID and ResolvePattern middlewares), scheduling points at every transport read/write "
                      "and every rewritten sync operation; (b) StreamCanceler with 1-6 streams and a shutdown at a drawn point, its goroutine a task; (c) SkipResponseWriter with a scripted "
                      "WriterTo, un-gated single driver. Oracles: no race report, echo (every response is the function of its own request: ids, tokens, request id, pattern, negotiated type, "
-                     "error name/message), no deadlock, all tasks finish. distinct = schedule hash; non-trivial = more than one task. The generated-server half runs in the gen engine.",
+                     "error name/message), no deadlock, all tasks finish. distinct = schedule hash; non-trivial = more than one task. Generated half: one run = 2-16 (thorough: up to 64) client tasks x 1-3 (thorough 1-8) exchanges (valid, single-constraint-invalid, declared error, plain error) "
+                     "through the generated clients against ONE mounted generated server of a seeded design, race build of goa + generated code + chi; echo oracle = delivery and result equality "
+                     "with the task's own values, error messages carrying the task's own marker.",
                 assumptions=["the race detector only sees the program's own happens-before edges (gates are raw syscalls, no inlining so reports name the accessing function)",
                              "interleavings are explored at scheduling points only; what happens between two points is covered by the race detector, not by schedule search",
                              "sync.Pool inside chi/net/http/fmt keeps its per-P behaviour (no overlay): it can add happens-before edges and so hide, never invent, a race"]),
@@ -506,6 +509,21 @@ PROPS = {
                              "for a defaulted attribute held in a non-pointer Go field the sender cannot express 'unset'; such attributes are always sent with a non-zero value",
                              "absent and empty collections compare equal", "designs goa rejects or that fail to compile are dropped and counted (C01/C12 territory)"]),
 }
+PROPS["C09"] = dict(engine="dir", race=False, quick_histories=60, thorough_histories=1500, quick_crash_points=96, quick_budget=420, thorough_budget=3300,
+                    level="fault_enumeration",
+                    rule="the real goa CLI and the generator it compiles and runs (both built from the rewritten copy), one process per step, over one output directory on tmpfs: "
+                         "(A) determinism experiments: each of 3 (thorough 10) seeded designs generated into a fresh directory under reverse / seeded map orders, three clock origins and different "
+                         "GOMAXPROCS, compared byte for byte with a clean generation under sorted map order; (B) seeded histories of 2-7 steps (gen, example, user-edit, design-edit, "
+                         "crashed-gen@n with optional torn write, failed-gen@n ENOSPC/EIO, crashed-cleanup), every step with its own map order and clock; (C) crash-point enumeration "
+                         "gen; crashed-gen@n; gen over the quotient of FaultFS operations (every non-write operation; first, last and three middle writes of each run of writes to one file, with "
+                         "and without tearing): quick = 96 evenly spaced points of the quotient on one design, thorough = the whole quotient on up to 10 designs. Oracles after every successful "
+                         "gen: file list and bytes under gen/ equal the clean generation of the current design (so no stale or half-written file survives), nothing outside gen/ changed; "
+                         "after every example: every file that existed before is byte- and mtime-identical. distinct = (class, design, step shape or crash point)",
+                    assumptions=["the crash model is process death (completed writes survive): goa never fsyncs, so nothing stronger is promised",
+                                 "a crash inside the os.RemoveAll that the generated main performs is simulated from outside (crashed-cleanup: a random subset of gen/ deleted), a superset of what a dying RemoveAll can leave",
+                                 "designs goa cannot generate at all are dropped (C01 territory)",
+                                 "the Go build cache is shared by all steps; the generator binary is relinked at every step"])
+
 for _pid, _what in (("C03", "a drawn valid RESULT returned by the stub; oracles: client returns Expected(result) (defaults filled), designed status code, response placement (header/cookie/body), relaxed fault oracle"),
                     ("C04", "values on both sides of every validation boundary (one constraint instance broken per exchange: required, enum, format, pattern, min/max incl. exclusive, lengths in runes vs bytes, at every nesting depth, in every location) and invalid RESULTS; oracles: stub invoked iff the model says the request is valid; 4xx with the documented error name for the broken rule; whatever reaches the stub satisfies the design (also under cut/flip/dup faults); the client refuses results that violate the result's constraints"),
                     ("C06", "designs with Basic/APIKey/JWT/OAuth2 schemes in 1-3 alternative requirements of 1-2 schemes at API/service/method level with NoSecurity overrides, credentials in Authorization/custom headers/query; per exchange a drawn accept/reject vector and credential strings (spaces, Bearer prefixes, colons, non-ASCII); oracles: user code runs iff the first requirement (in design order) whose callbacks all accept exists, exact callback sequence with short-circuit, each callback gets the credential the client was given (bearer prefix removed for header tokens) and the declared/required scopes, total failure returns the last callback's error, NoSecurity triggers no callback"),
